@@ -31,7 +31,15 @@ fn run(expr: &str, doc: &str) -> Result<Out, String> {
 fn part(src: &mut Src, st: &mut Stats, hint: Option<&J>, depth: usize) -> Option<String> {
     let o = ExprOpts { max_depth: depth, extremes: false, ..ExprOpts::default() };
     let t = gen_expr(src, 0, hint, &o);
-    spell_tree(&t, src, st).map(|x| x.0)
+    let text = spell_tree(&t, src, st).map(|x| x.0)?;
+    // sometimes the part goes through a total built-in (defined on every value, nulls included)
+    Some(match src.below(12) {
+        0 => format!("type({})", text),
+        1 => format!("not_null({}, 'dflt')", text),
+        2 => format!("to_array({})", text),
+        3 => format!("type(@) == 'null' || ({})", text),
+        _ => text,
+    })
 }
 
 fn same(a: &Out, b2: &Out) -> bool {
@@ -95,7 +103,11 @@ fn map_elements(items: &[J], r: Option<&str>) -> Result<(Out, usize), String> {
 }
 
 fn compound(src: &mut Src, st: &mut Stats, _env: &Env) -> CaseResult {
-    let doc = gen_doc(src, &DocOpts::default());
+    let mut doc = gen_doc(src, &DocOpts::default());
+    if src.chance(8) {
+        crate::gen_doc::scale_some_array(&mut doc, src, 2500);
+        st.class("scaled-document");
+    }
     let dt = doc.to_json();
     let kind = src.below(12);
     let l = match part(src, st, Some(&doc), 3) {
